@@ -137,19 +137,18 @@ def run(c):
         w.start()
 
     # ---- M
-    c.mc_holds("RekeyCounters", cfg_text(spec="FairSpec", constants=MODEL, invariants=["TypeOK", "OverflowTerminates"], properties=PROPS),
+    c.mc_holds("RekeyCounters", cfg_text(spec="FairSpec", constants=MODEL, invariants=["TypeOK", "OverflowTerminates", "AllowanceIsReal"], properties=PROPS),
                name="limits 2 packets / 4 bytes, allowance 2 / 3, both kinds of peer, with liveness")
     if not c.quick:
         c.mc_holds("RekeyCounters", cfg_text(spec="FairSpec", constants=dict(MODEL, RPs="@{3}", RBs="@{5}", OBs="@{4}", MaxWire=2),
-                                             invariants=["TypeOK", "OverflowTerminates"], properties=PROPS),
+                                             invariants=["TypeOK", "OverflowTerminates", "AllowanceIsReal"], properties=PROPS),
                    name="limits 3 packets / 5 bytes, allowance 2 / 4, 2 packets in flight, with liveness", timeout=1500)
     c.mc("RekeyCounters", cfg_text(constants=dict(MODEL, ResetOnSet=False), invariants=["TypeOK"], properties=["CountersRestart"]),
          expect="CountersRestart", name="mutant: set_*_cipher does not reset")
     c.mc("RekeyCounters", cfg_text(constants=dict(MODEL, CheckOverflow=False), invariants=["OverflowTerminates"]),
          expect="OverflowTerminates", name="mutant: no overflow test")
-    c.mc("RekeyCounters", cfg_text(spec="FairSpec", constants=dict(MODEL, AskOnce=False, Coops="@{FALSE}"), invariants=["TypeOK"],
-                                   properties=["RefuserDropped"]),
-         expect="<temporal>", name="mutant: every packet written past the limit clears the overflow counters")
+    c.mc("RekeyCounters", cfg_text(constants=dict(MODEL, AskOnce=False), invariants=["AllowanceIsReal"]),
+         expect="AllowanceIsReal", name="mutant: every packet written past the limit clears the overflow counters")
 
     # ---- TV
     for w in workers:
